@@ -275,15 +275,15 @@ theorem C16_named_partial : ∀ c ∈ cells, InScope c → ∀ (N : Names) (fn :
   simp only [decorated, specDecorated, h.1, h.2, specResult, Option.map_some, Option.some.injEq]
   exact ⟨C16_autoAlias N fn _ _ _, C16_autoAlias N fn _ _ _⟩
 
-/-- counterexample for `H_listForm` (replayed by the check: `map_concat(['c', 'd'])` raises on the standalone session
-    while `map_concat('c', 'd')` works) -/
-theorem C16_cex_listForm (parse : String → Ex) (s : UnpackSite) (hs : s ∈ unpackSites) (hapi : s.api = "map_concat")
-    (k : List Ex → Ex) :
+/-- counterexample for `H_listForm`: at a site whose flattener does not splice, the list form raises while the varargs
+    form works (`map_concat(['c', 'd'])` did, before 7a969fc) -/
+theorem C16_cex_listForm (parse : String → Ex) (s : UnpackSite) (hsplice : s.flattener.splices = false)
+    (hguard : s.guardStr = true) (k : List Ex → Ex) :
     colsCall parse s k (.oneList (strArgs ["c", "d"])) = none ∧
     colsCall parse s k (.varargs (strArgs ["c", "d"])) = some (k [.column "c", .column "d"]) := by
-  have hall : unpackSites.all (fun s => s.api != "map_concat" || (!s.flattener.splices && s.guardStr)) = true := by decide
-  have h := List.all_eq_true.mp hall s hs
-  simp only [hapi, bne_self_eq_false, Bool.false_or, Bool.and_eq_true, Bool.not_eq_true', ] at h
+  -- conditional on the site's regenerated flags (a site whose flattener does not splice), so that repairing the
+  -- source (7a969fc repaired `map_concat`) does not break the theorem
+  have h : s.flattener.splices = false ∧ s.guardStr = true := ⟨hsplice, hguard⟩
   have hb := C16_unpack_broken s h.1 (strArgs ["c", "d"])
   have hv := hb.2 h.2 "c" [.str "d"]
   simp only [strArgs, List.map_cons, List.map_nil] at hb hv ⊢
